@@ -589,6 +589,7 @@ type recQ struct {
 	mu     simrt.Mutex
 	serial bool // serialise enqueues with the other wrapper calls (C04 layer W: record order = queue order)
 	items  []qItem
+	rejected []qItem // items the queue refused: the library must have closed them
 	qi     int
 	lens   []lenObs
 	recLen bool
@@ -652,6 +653,7 @@ func (r *recQ) Enqueue(item any) bool {
 	ok := r.fifo.Enqueue(item)
 	if !ok {
 		r.forget(item)
+		r.rejected = append(r.rejected, qItem{item, sub})
 	}
 	r.wd.root.rec.qEnq(r.wd, r.qi, sub, ok)
 	return ok
@@ -673,6 +675,7 @@ func (r recPQ) Enqueue(item any, priority int) bool {
 	ok := r.heap.Enqueue(item, priority)
 	if !ok {
 		r.forget(item)
+		r.rejected = append(r.rejected, qItem{item, sub})
 	}
 	r.wd.root.rec.qEnq(r.wd, r.qi, sub, ok)
 	return ok
